@@ -144,12 +144,50 @@ def suite_pending(ctx, n):
     ctx.add_suite("pending-externals", **st)
 
 
+WAKE_DOC = ('<scxml xmlns="http://www.w3.org/2005/07/scxml" version="1.0" datamodel="null"><state id="a"><transition event="ierr" target="b"/>'
+            '<transition event="ext" target="c"/></state><state id="b"><transition event="ext" target="ok"/></state><state id="c"><transition event="ierr" target="late"/></state>'
+            '<state id="late"/><state id="ok"/></scxml>')
+
+
+def suite_wakeup(ctx, n):
+    """an internal event put on the queue by another thread while step() blocks on the external queue (what the timer thread does when
+    the delivery of a delayed <send> fails): it is followed by the empty wake-up event and, right behind it, an external event. The
+    step must come back for the internal event first - whatever the timing, because the wake-up precedes the external event in the
+    queue and the internal event was there before both."""
+    from uvlib import hexs
+    rng = ctx.rng
+    lines = []
+    for k in range(n):
+        eng = ("large", "fast")[k % 2]
+        pre = rng.choice(["q", "q,g", "s,s,q"])
+        lines.append("%s\t-\t%s,k:%d,q,q\t%s" % (eng, pre, rng.choice([0, 1, 5, 20, 40]), hexs(WAKE_DOC)))
+    parts = list(chunks(lines, max(1, (len(lines) + 7) // 8)))
+    def work(part):
+        rc, h, err = ctx.harness_lines("api", part, variant="asan", timeout=1800)
+        if rc != 0 or len(h) != len(part): raise BrokenTie("harness", "uvharness api rc=%s" % rc)
+        return h
+    with ThreadPoolExecutor(8) as ex: H = [x for part in ex.map(work, parts) for x in part]
+    st = dict(inputs=len(lines), internal_first=0, violations=0)
+    for l, h in zip(lines, H):
+        t = h.split(" ")
+        ev = [x for x in t if x in ("bpe:ierr", "bpe:ext")]
+        bad = [x for x in t if x.startswith(("CRASH", "EXIT", "EXC", "bad-op"))]
+        if ev == ["bpe:ierr", "bpe:ext"] and "cfg:root,ok" in t and not bad: st["internal_first"] += 1; continue
+        st["violations"] += 1
+        if len(ctx.violations) < 3:
+            ctx.violation("wakeup-%d" % len(ctx.violations), "wakeup", [l],
+                          detail="the external event was taken while an internal event was pending (or an event was lost): events processed %s, %s\ntrace: %s"
+                          % (ev, bad, " ".join(x for x in t if not x.startswith("cfg:"))[:800]))
+    ctx.add_suite("wakeup", **st)
+
+
 def run(ctx):
     ctx.setup(variants=("asan", "tsan"))
     ctx.audit(THEOREMS, LEAN_FILES)
     quick = ctx.tier == "quick"
     suite_pending(ctx, 700 if quick else 20000)
     suite_threads(ctx, 60 if quick else 1500)
+    suite_wakeup(ctx, 60 if quick else 2000)
     s1, s2 = ctx.coverage["suites"]["pending-externals"], ctx.coverage["suites"]["threads"]
     ctx.coverage["evaluations"] = s1["inputs"] + s2["inputs"]
     ctx.coverage["distinct_nontrivial"] = s2["events"]
